@@ -351,7 +351,7 @@ def _run_one(prog: Program, report: Report, g) -> int:
                 want = canon(want_ast)
                 # hoisted sub-expressions: both sides with every single-assignment local replaced by its definition
                 full = canon(v.res.expr(e, 6)) == canon(v.res.expr(want_ast, 6))
-                if want in gots or full or _equal_modulo_rename(v, want_ast, cands, canon):
+                if want in gots or full or _equal_modulo_rename(v, want_ast, cands, canon) or _same_constant(e, want_ast):
                     report.ob(g.rule, g.fn, f"{g.why.split(';')[0]}: `{one_line(e)[:70]}` = {want}")
                 elif not any(kind_of(c) == kind_of(want_ast) for c in cands):
                     # a different construct: unrecognised idiom for this target only (other targets are still judged)
@@ -446,6 +446,18 @@ def _run_one(prog: Program, report: Report, g) -> int:
                 else:
                     report.violate(g.rule, v.fn, t, f"{g.why.split(';')[0]}: {one_line(t)[:100]}", f"{g.why}; a path from the function entry reaches this statement without passing `{g.through}`", what=f"every path to the target passes /{g.through}/")
     return n
+
+
+def _same_constant(e: ast.expr, want: ast.expr) -> bool:
+    """Two spellings of one constant (a number, a literal set, an equivalent regular expression up to
+    the bounded comparison of rcustom._const_equal)."""
+    from .rcustom import _const_equal
+
+    try:
+        r = _const_equal(one_line(e), one_line(want))
+    except Exception:  # noqa: BLE001
+        return False
+    return bool(r and r[0])
 
 
 def _new_in(v: FnView, e: ast.expr) -> list[str]:
